@@ -27,6 +27,46 @@ RULE = ("histories = 1..20 CON/NON submissions on 1..3 datagram sessions (NSTART
 WRAPS = ["coap_ticks", "coap_socket_send", "coap_socket_recv"]
 
 
+def run_cases(exe, lines, chunk=250, t_chunk=15, t_one=2):
+    """Run case lines through a driver in chunks; a chunk that crashes or does not come back in
+    time is re-run line by line, so that the culprit gets 'CRASH rc=..' / 'HANG' and everything
+    else still gets its result (vlib.run_lines_robust waits 900 s on a hang)."""
+    import subprocess
+    outs = []
+    bad = 0
+
+    def one(batch, timeout):
+        try:
+            p = subprocess.run([exe], input=("\n".join(batch) + "\n").encode(),
+                               stdout=subprocess.PIPE, stderr=subprocess.PIPE, timeout=timeout)
+        except subprocess.TimeoutExpired:
+            return None, "HANG"
+        o = p.stdout.decode("latin-1").split("\n")
+        if o and o[-1] == "":
+            o = o[:-1]
+        if p.returncode != 0 or len(o) != len(batch):
+            return None, "CRASH rc=%d" % p.returncode
+        return o, ""
+
+    for k in range(0, len(lines), chunk):
+        batch = lines[k:k + chunk]
+        o, why = one(batch, t_chunk)
+        if o is not None:
+            outs.extend(o)
+            continue
+        for ln in batch:
+            if bad > 8:
+                outs.append("<not run>")
+                continue
+            o1, why1 = one([ln], t_one)
+            if o1 is None:
+                bad += 1
+                outs.append(why1)
+            else:
+                outs.append(o1[0])
+    return outs, bad
+
+
 def groups(out):
     """'0:A,Tc1.2 1:' -> list of item lists"""
     res = []
@@ -63,6 +103,11 @@ def canon(out, ops):
         for it in items:
             if it[0] == "T":
                 seen[(sid, it[2:].split(".")[0])] = 1
+        # inside one library call the order between datagrams and nack callbacks is not
+        # observable by the property (e.g. give-up: next message first, then the NACK):
+        # result marker, datagrams in order, callbacks in order
+        items = [x for x in items if x[0] in "AX"] + [x for x in items if x[0] in "TW"] + \
+                [x for x in items if x[0] not in "AXTW"]
         res.append(",".join(items))
     return " ".join("%d:%s" % (i, x) for i, x in enumerate(res))
 
@@ -152,10 +197,14 @@ def main(run):
     drv = vlib.build_driver("h_nstart", ["h_nstart.c"], wraps=WRAPS)
     quick = run.tier == "quick"
     r = tie.rng_for(run, "c08")
-    n_forced = 3000 if quick else 60000
-    n_natural = 600 if quick else 12000
+    n_forced = 8000 if quick else 120000
+    n_natural = 1500 if quick else 25000
     cases = []           # (prefix, ops, meta)
     corpus = vlib.read_corpus("C08")
+    if getattr(run, "replay", None):
+        # --replay <file>: only the case(s) written in a replay file ("case: ns ..." lines)
+        corpus = [l[6:].strip() for l in open(run.replay) if l.startswith("case: ns ")]
+        n_forced = n_natural = 0
     for ln in corpus:
         t = ln.split()
         ns = int(t[2])
@@ -170,8 +219,8 @@ def main(run):
 
     forced_idx = [i for i, c in enumerate(cases) if not c[2].get("natural")]
     om, crm = vlib.run_lines_robust(model, [lines[i] for i in forced_idx])
-    oc, crc = vlib.run_lines_robust(drv, lines)
-    run.cov["driver_crashes"] = len(crc)
+    oc, ncrash = run_cases(drv, lines)
+    run.cov["driver_crashes"] = ncrash
     model_out = dict(zip(forced_idx, om))
 
     # oracle on the implementation's own traces
@@ -187,8 +236,8 @@ def main(run):
     def check_one(prefix, ops):
         """-> (kind, detail) for a single case; kind in ok / oracle / tie / crash"""
         ln = gen_nstart.line_of(prefix, ops)
-        c, _ = vlib.run_lines_robust(drv, [ln])
-        if c[0].startswith("CRASH") or c[0].startswith("ERROR"):
+        c, _ = run_cases(drv, [ln])
+        if c[0].startswith("CRASH") or c[0].startswith("ERROR") or c[0] == "HANG":
             return "crash", c[0]
         ml = mon_line(prefix, ops, c[0])
         if ml is None:
@@ -220,8 +269,10 @@ def main(run):
         if i % 400 == 5:
             run.sample({"case": ln[:400], "impl": co[:400], "checker": verdict.get(i, "?")})
         kind = None
-        if co.startswith("CRASH") or co.startswith("ERROR") or co == "<not run>":
-            kind, what = "crash", "driver failed (%s)" % co
+        if co.startswith("CRASH") or co.startswith("ERROR") or co == "HANG":
+            kind, what = "crash", "the library crashes or never returns (%s)" % co
+        elif co == "<not run>":
+            continue
         elif verdict.get(i, "unparsed") != "ok" and peer_ok(ops, co):
             kind, what = "oracle", "history rejected by the property checker (%s)" % verdict.get(i, "unparsed")
         elif not nat and canon(model_out.get(i, "<missing>"), ops) != canon(co, ops):
@@ -241,7 +292,7 @@ def main(run):
         if sl in reported:
             continue
         reported.add(sl)
-        c1, _ = vlib.run_lines_robust(drv, [sl])
+        c1, _ = run_cases(drv, [sl])
         m1 = ["(natural-time history: no model prediction)"]
         if not any(o[0] == "W" for o in small):
             m1, _ = vlib.run_lines_robust(model, [sl])
